@@ -963,3 +963,7 @@ M("c11-lists-right-recursive-alternatives", ["C11"], "break",
   [("sgramm.y", "rhs : rhs '|' alt\n    | alt\n    ;", "rhs : alt\n    | alt '|' rhs\n    ;")], "C11-lists")
 M("c11-lists-alternatives-reordered-benign", ["C11"], "benign",
   [("sgramm.y", "rhs : rhs '|' alt\n    | alt\n    ;", "rhs : alt\n    | rhs '|' alt\n    ;")])
+M("r4n-revert-F48-mark-negated", ["C12", "C04"], "break",
+  [("yaep.c", "      node->val.anode.cost = -(node->val.anode.cost + 1);", "      node->val.anode.cost = -node->val.anode.cost - 1;")], "cost-negated")
+M("r4n-mark-decoded-by-complement-benign", ["C12", "C04"], "benign",
+  [("yaep.c", "      node->val.anode.cost = -(node->val.anode.cost + 1);", "      node->val.anode.cost = ~node->val.anode.cost;")])
